@@ -191,6 +191,7 @@ class Fn:
         self.line = 0
         self.simple_const = None   # for `const X: T = const 1_u8;`
         self.crate = None
+        self.key = name
 
     def __repr__(self):
         return "Fn(%s)" % self.name
@@ -730,7 +731,13 @@ def parse_file(path, crate=None):
         if skip_next:
             skip_next = False
         else:
-            fns.setdefault(fn.name, fn)
+            key = fn.name
+            k = 2
+            while key in fns:
+                key = "%s#%d" % (fn.name, k)
+                k += 1
+            fn.key = key
+            fns[key] = fn
         i += 1
     return fns, allocs
 
